@@ -29,13 +29,13 @@ type c11Knobs struct {
 	barelf    bool // allow LF not preceded by CR
 	deep      bool // allow deep *well-formed* search nesting (quadratic logging cost)
 	starttls  bool // allow STARTTLS
-	done      bool // allow a DONE line outside IDLE
 	listutf8  bool // allow invalid UTF-8 in LIST / LSUB lines
-	seqzero   bool // allow 4294967296 (a message number that wraps to 0)
-	partwrap  bool // allow <n.m> partials whose sum overflows int64
+	stackdeep bool // allow recursion depths that overflow the goroutine stack (kills the process)
 	user      string
 	pass      string
 }
+
+const c11SafeDepth = 150000
 
 const (
 	c11NBase = 30
@@ -201,7 +201,7 @@ func c11Valid(kind int, r *core.Rand, tag string, kn c11Knobs) []byte {
 			s = "CAPABILITY"
 		}
 	case 29:
-		if kn.done {
+		if r.P(1, 2) {
 			return []byte("DONE\r\n")
 		}
 		s = "CHECK"
@@ -231,9 +231,6 @@ func c11Digits(r *core.Rand, kn c11Knobs) string {
 	case 0:
 		return "4294967295"
 	case 1:
-		if !kn.seqzero {
-			return "4294967297"
-		}
 		return "4294967296"
 	case 2:
 		return "9223372036854775807"
@@ -268,6 +265,15 @@ func c11Nest(form int, d int, tag string, kn c11Knobs) []byte {
 	}
 	if quad && kn.deep && d > 40000 {
 		d = 40000
+	}
+	if recursive := form <= 5 || form == 7 || form == 11; recursive && !kn.stackdeep && d > c11SafeDepth {
+		// recorded defect: the search-key parser recurses once per nesting level
+		// without a bound; around 10^6 levels the goroutine stack passes Go's 1 GB
+		// limit and the runtime ends the whole process
+		d = c11SafeDepth
+	}
+	if form == 10 && d > 100000 {
+		d = 100000 // one FETCH response per element when a mailbox is selected
 	}
 	var sb strings.Builder
 	sb.WriteString(tag)
@@ -508,10 +514,6 @@ func c11Build(a core.Action, step int, kn c11Knobs) []byte {
 	if !kn.lit0 {
 		b = c11NoZeroLiteral(b)
 	}
-	if !kn.partwrap {
-		// recorded defect: BODY[]<n.m> with n+m beyond int64 panics
-		b = c11PartialRe.ReplaceAll(b, []byte("<$1.4294967295>"))
-	}
 	if !kn.listutf8 && c11ListRe.Match(b) && !utf8.Valid(b) {
 		// recorded defect: LIST / LSUB arguments that are not UTF-8 reach
 		// regexp.MustCompile and panic
@@ -525,7 +527,6 @@ func c11Build(a core.Action, step int, kn c11Knobs) []byte {
 	return b
 }
 
-var c11PartialRe = regexp.MustCompile(`<([0-9]+)\.[0-9]{19,}>`)
 var c11ListRe = regexp.MustCompile(`(?i)(LIST|LSUB)`)
 
 // c11NoZeroLiteral rewrites "{0" (any number of zeros) followed by a non-digit to "{1".
